@@ -19,6 +19,7 @@ var c17Prefix = map[string][2]string{ // name -> text, separator (only used by t
 	"ssh": {"ssh://git@example.com/", "/"}, "file": {"file:///", "/"}, "scp": {"git@example.com:", "/"},
 	"httpsU": {"HTTPS://Example.com/", "/"}, "sshU": {"Ssh://git@example.com/", "/"}, "drivefwd": {"C:/", "/"},
 	"scpip": {"10.0.0.5:", "/"}, "scphy": {"-host:", "/"}, "hostcol": {"git.example.org:", "/"},
+	"dslash": {"//", "/"}, "unc": {"\\\\", "\\"},
 }
 
 func c17Event(c obj) obj {
